@@ -45,6 +45,12 @@ class H {
   function intFold(): (int, int) -> int = (acc, x) -> (acc * 7 + x) % 100003
   function intFoldRight(): (int, int) -> int = (x, acc) -> (acc * 7 + x) % 100003
   function intEq(): (int, int) -> bool = (a, b) -> a == b
+  function iterPrint(): (Int) -> unit = (k) -> Process.println(Str.fromInt(k.value))
+  function keyTimesTwo(): (Int) -> Int = (k) -> Int.init(k.value * 2)
+  function keyToOne(): (Int) -> Int = (k) -> Int.init(1)
+  function keyId(): (Int) -> Int = (k) -> k
+  function fromKeys(l: List<Int>): Set<Int> = Set.fromList(l)
+  function consKey(k: Int, l: List<Int>): List<Int> = List.Cons(k, l)
 }
 "#;
 
@@ -63,7 +69,7 @@ const METHOD_NAMES: [&str; 58] = [
   "customizedUnion", "merge", "equal", "compare", "contains", "intersection", "diff", "subset",
   "disjoint", "elements",
 ];
-const MORE_NAMES: [&str; 12] = ["fromList", "cons", "append", "reverse", "length", "first", "rest", "foldRight", "find", "singleton", "H", "value"];
+const MORE_NAMES: [&str; 19] = ["fromList", "cons", "append", "reverse", "length", "first", "rest", "foldRight", "find", "singleton", "H", "value", "iter", "iterPrint", "keyTimesTwo", "keyToOne", "keyId", "fromKeys", "consKey"];
 
 /// generic decoding of interpreter values: ints, bools, strings, unit -> scalars; tuples and
 /// structs -> arrays of their fields; variants -> {"t": tag, "d": [...]}
@@ -378,23 +384,31 @@ fn main() {
     let mut drivers: Vec<(String, String)> = vec![]; // (name, driver program text)
 
     // =================== Map ===================
-    for (universe_name, ks) in [("small", keys.clone()), ("wide", wide_keys.clone())] {
+    // "deep": one value per key and only insert/remove, so that the search reaches its fixpoint -
+    // every AVL tree shape over every subset of the keys - instead of stopping at a depth
+    let deep_keys: Vec<i32> = if thorough { (1..=10).collect() } else { (1..=7).collect() };
+    for (universe_name, ks) in [("small", keys.clone()), ("wide", wide_keys.clone()), ("deep", deep_keys.clone())] {
+      let deep = universe_name == "deep";
       let mut ops: Vec<MapOp> = vec![];
       for k in &ks {
         ops.push(MapOp::Insert(*k, 0));
-        ops.push(MapOp::Insert(*k, 1));
+        if !deep {
+          ops.push(MapOp::Insert(*k, 1));
+        }
       }
       for k in &ks {
         ops.push(MapOp::Remove(*k));
       }
-      for k in &ks {
-        for f in 0..3 {
-          ops.push(MapOp::Update(*k, f));
+      if !deep {
+        for k in &ks {
+          for f in 0..3 {
+            ops.push(MapOp::Update(*k, f));
+          }
         }
+        ops.push(MapOp::Filter(0));
+        ops.push(MapOp::Filter(1));
+        ops.push(MapOp::MapFlip);
       }
-      ops.push(MapOp::Filter(0));
-      ops.push(MapOp::Filter(1));
-      ops.push(MapOp::MapFlip);
       let empty = c.h("emptyMap", vec![]).unwrap_or_else(|e| machinery_failure(&e));
       // state table: canonical tree dump -> (value, model, discovery path)
       let mut seen: HashMap<String, usize> = HashMap::new();
@@ -407,7 +421,8 @@ fn main() {
       let mut bad_heights = 0u64;
       let mut depth_done = 0;
       let mut edges = 0u64;
-      let depth_bound = if universe_name == "wide" { max_depth.min(4) } else { max_depth };
+      let depth_bound = if deep { usize::MAX } else if universe_name == "wide" { max_depth.min(4) } else { max_depth };
+      let state_cap = if deep { 200_000 } else { state_cap };
       while let Some(si) = queue.pop_front() {
         let (v, model, path) = states[si].clone();
         depth_done = depth_done.max(path.len());
@@ -527,7 +542,8 @@ fn main() {
         format!("map_{universe_name}_keys"),
         json!({"states": states.len(), "transitions": edges, "max_depth": depth_done, "pair_checks": pair_checks,
                "max_height_difference_between_siblings": max_imbalance, "states_with_wrong_stored_height": bad_heights,
-               "distinct_finite_maps": states.iter().map(|s| format!("{:?}", s.1)).collect::<BTreeSet<_>>().len()}),
+               "distinct_finite_maps": states.iter().map(|s| format!("{:?}", s.1)).collect::<BTreeSet<_>>().len(),
+               "fixpoint_reached": deep && states.len() < state_cap}),
       );
       // conformance drivers: the discovery path of every state, 25 paths per program
       if universe_name == "small" {
@@ -541,6 +557,8 @@ fn main() {
             }
             let last = format!("m{}", path.len());
             text.push_str(&format!("    Process.println(Main.opt({last}.get(H.key(2))) :: Main.b({last}.containsKey(H.key(1))) :: Main.b({last}.isEmpty()) :: Str.fromInt({last}.fold(1, H.foldOrder())));\n"));
+            // binary operations and closures-taking operations through the compiled code as well
+            text.push_str(&format!("    let o = H.emptyMap().insert(H.key(2), 1).insert(H.key(3), 0);\n    Process.println(Main.show({last}.union(o)) :: \"|\" :: Main.show(o.customizedUnion({last}, H.unionMerger())) :: \"|\" :: Main.show({last}.merge(o, H.merger())) :: \"|\" :: Main.show({last}.filter(H.predKeyOdd())) :: \"|\" :: Main.b({last}.equal(o, H.valEq())) :: Str.fromInt({last}.compare(o, H.valCmp())));\n"));
             text.push_str("  }\n");
           }
           text.push_str("  function main(): unit = {\n");
@@ -551,6 +569,272 @@ fn main() {
           drivers.push((format!("map paths chunk {ci}"), text));
         }
       }
+    }
+
+    // =================== Set: the same explicit-state search ===================
+    {
+      let ks: Vec<i32> = if thorough { (1..=9).collect() } else { (1..=6).collect() };
+      let empty = c.h("emptySet", vec![]).unwrap_or_else(|e| machinery_failure(&e));
+      let mut seen: HashMap<String, usize> = HashMap::new();
+      // (value, model, discovery path as (is_insert, key))
+      let mut states: Vec<(Value, BTreeSet<i32>, Vec<(bool, i32)>)> = vec![];
+      let mut queue: VecDeque<usize> = VecDeque::new();
+      seen.insert(decode(&empty).to_string(), 0);
+      states.push((empty, BTreeSet::new(), vec![]));
+      queue.push_back(0);
+      let mut edges = 0u64;
+      let mut max_imbalance = 0;
+      let mut bad_heights = 0u64;
+      let mut depth_done = 0;
+      let describe = |p: &Vec<(bool, i32)>| p.iter().map(|(i, k)| format!("{}({k})", if *i { "insert" } else { "remove" })).collect::<Vec<_>>().join(".");
+      let set_of = |j: &J| -> Vec<i32> { tree_info(j, false).entries.iter().map(|e| e.0).collect() };
+      let state_cap = 200_000usize;
+      while let Some(si) = queue.pop_front() {
+        let (v, model, path) = states[si].clone();
+        depth_done = depth_done.max(path.len());
+        let ctx = format!("set path {}", describe(&path));
+        let payload = json!({"collection": "Set", "path": describe(&path)});
+        let j = decode(&v);
+        let info = tree_info(&j, false);
+        max_imbalance = max_imbalance.max(info.max_imbalance);
+        if !info.height_ok {
+          bad_heights += 1;
+        }
+        let want: Vec<i32> = model.iter().copied().collect();
+        let got: Vec<i32> = info.entries.iter().map(|e| e.0).collect();
+        if got != want {
+          violations.push(("set:contents".into(), format!("the tree denotes {got:?} (in-order), the model is {want:?} [{ctx}]"), payload.clone()));
+          continue;
+        }
+        if info.max_imbalance > 2 || !info.height_ok {
+          violations.push(("set:balance".into(), format!("tree with sibling height difference {} / wrong stored height [{ctx}]", info.max_imbalance), payload.clone()));
+        }
+        // ---- queries ----
+        let mut q = |what: &str, r: Result<Value, String>, want: J, viol: &mut Vec<(String, String, J)>| match r {
+          Ok(x) => {
+            let g = decode(&x);
+            if g != want {
+              viol.push((format!("set:{}", what.split('(').next().unwrap()), format!("{what} returned {g}, the finite-set model says {want} [{ctx}]"), payload.clone()));
+            }
+          }
+          Err(e) => viol.push((format!("set:{}:abnormal-ending", what.split('(').next().unwrap()), format!("{what} ended with {e} [{ctx}]"), payload.clone())),
+        };
+        for k in &ks {
+          let key = c.key(*k);
+          let r = c.m(&v, "contains", vec![key.clone()]);
+          q(&format!("contains({k})"), r, json!(model.contains(k)), &mut violations);
+          match c.m(&v, "split", vec![key]) {
+            Ok(t) => {
+              let tj = decode(&t);
+              let (l, mid, r) = (set_of(&tj[0]), tj[1].clone(), set_of(&tj[2]));
+              let wl: Vec<i32> = model.range(..*k).copied().collect();
+              let wr: Vec<i32> = model.range(k + 1..).copied().collect();
+              if l != wl || r != wr || mid != json!(model.contains(k)) {
+                violations.push(("set:split".into(), format!("split({k}) returned ({l:?}, {mid}, {r:?}), the model says ({wl:?}, {}, {wr:?}) [{ctx}]", model.contains(k)), payload.clone()));
+              }
+            }
+            Err(e) => violations.push(("set:split:abnormal-ending".into(), format!("split({k}) ended with {e} [{ctx}]"), payload.clone())),
+          }
+        }
+        let r = c.m(&v, "size", vec![]);
+        q("size()", r, json!(model.len()), &mut violations);
+        let r = c.m(&v, "isEmpty", vec![]);
+        q("isEmpty()", r, json!(model.is_empty()), &mut violations);
+        let r = c.m(&v, "min", vec![]);
+        q("min()", r, model.iter().next().map(|k| j_some(j_key(*k))).unwrap_or_else(j_none), &mut violations);
+        let r = c.m(&v, "max", vec![]);
+        q("max()", r, model.iter().next_back().map(|k| j_some(j_key(*k))).unwrap_or_else(j_none), &mut violations);
+        let r = c.m(&v, "elements", vec![]);
+        q("elements()", r, j_list(model.iter().map(|k| j_key(*k)).collect()), &mut violations);
+        let f = c.h("keyFold", vec![]).unwrap();
+        let r = c.m(&v, "fold", vec![Value::Int(1), f]);
+        let mut acc: i64 = 1;
+        for k in &model {
+          acc = (acc * 7 + *k as i64) % 100003;
+        }
+        q("fold(order-sensitive)", r, json!(acc), &mut violations);
+        // iter: visits every element once, in ascending order (observed through println)
+        let f = c.h("iterPrint", vec![]).unwrap();
+        let _ = c.it.take_lines();
+        match c.m(&v, "iter", vec![f]) {
+          Ok(_) => {
+            let lines = c.it.take_lines();
+            let want: Vec<String> = model.iter().map(|k| k.to_string()).collect();
+            if lines != want {
+              violations.push(("set:iter".into(), format!("iter visited {lines:?}, the model says {want:?} [{ctx}]"), payload.clone()));
+            }
+          }
+          Err(e) => violations.push(("set:iter:abnormal-ending".into(), format!("iter ended with {e} [{ctx}]"), payload.clone())),
+        }
+        for (pi, pname) in ["keyOdd", "keyBig"].iter().enumerate() {
+          let pred = |k: &i32| if pi == 0 { k % 2 != 0 } else { *k > 2 };
+          let f = c.h(pname, vec![]).unwrap();
+          let r = c.m(&v, "forAll", vec![f.clone()]);
+          q(&format!("forAll({pname})"), r, json!(model.iter().all(pred)), &mut violations);
+          let r = c.m(&v, "exists", vec![f.clone()]);
+          q(&format!("exists({pname})"), r, json!(model.iter().any(pred)), &mut violations);
+          match c.m(&v, "filter", vec![f.clone()]) {
+            Ok(x) => {
+              let got = set_of(&decode(&x));
+              let want: Vec<i32> = model.iter().copied().filter(|k| pred(k)).collect();
+              let fi = tree_info(&decode(&x), false);
+              if got != want || fi.max_imbalance > 2 || !fi.height_ok {
+                violations.push(("set:filter".into(), format!("filter({pname}) returned {got:?} (max sibling height difference {}), the model says {want:?} [{ctx}]", fi.max_imbalance), payload.clone()));
+              }
+            }
+            Err(e) => violations.push(("set:filter:abnormal-ending".into(), format!("filter ended with {e} [{ctx}]"), payload.clone())),
+          }
+          match c.m(&v, "partition", vec![f]) {
+            Ok(x) => {
+              let pj = decode(&x);
+              let (yes, no) = (set_of(&pj[0]), set_of(&pj[1]));
+              let wy: Vec<i32> = model.iter().copied().filter(|k| pred(k)).collect();
+              let wn: Vec<i32> = model.iter().copied().filter(|k| !pred(k)).collect();
+              if yes != wy || no != wn {
+                violations.push(("set:partition".into(), format!("partition({pname}) returned ({yes:?}, {no:?}), the model says ({wy:?}, {wn:?}) [{ctx}]"), payload.clone()));
+              }
+            }
+            Err(e) => violations.push(("set:partition:abnormal-ending".into(), format!("partition ended with {e} [{ctx}]"), payload.clone())),
+          }
+        }
+        // map with an order-reversing, an order-preserving, a collapsing and the identity function
+        for (fname, fm) in [("keyMirror", (|k: i32| 4 - k) as fn(i32) -> i32), ("keyTimesTwo", |k| k * 2), ("keyToOne", |_| 1), ("keyId", |k| k)] {
+          let f = c.h(fname, vec![]).unwrap();
+          match c.m(&v, "map", vec![f]) {
+            Ok(x) => {
+              let got = set_of(&decode(&x));
+              let want: Vec<i32> = model.iter().map(|k| fm(*k)).collect::<BTreeSet<_>>().into_iter().collect();
+              if got != want {
+                violations.push(("set:map".into(), format!("map({fname}) returned {got:?}, the model says {want:?} [{ctx}]"), payload.clone()));
+              }
+            }
+            Err(e) => violations.push(("set:map:abnormal-ending".into(), format!("map({fname}) ended with {e} [{ctx}]"), payload.clone())),
+          }
+        }
+        // fromList(elements()) in both list orders
+        for rev in [false, true] {
+          let mut l = c.h("nilKeys", vec![]).unwrap();
+          let order: Vec<i32> = if rev { model.iter().copied().collect() } else { model.iter().rev().copied().collect() };
+          for k in order {
+            let key = c.key(k);
+            l = c.h("consKey", vec![key, l]).unwrap_or_else(|e| machinery_failure(&e));
+          }
+          match c.h("fromKeys", vec![l]) {
+            Ok(x) => {
+              let got = set_of(&decode(&x));
+              if got != want {
+                violations.push(("set:fromList".into(), format!("fromList returned {got:?}, the model says {want:?} [{ctx}]"), payload.clone()));
+              }
+            }
+            Err(e) => violations.push(("set:fromList:abnormal-ending".into(), format!("fromList ended with {e} [{ctx}]"), payload.clone())),
+          }
+        }
+        if states.len() >= state_cap {
+          continue;
+        }
+        // ---- transitions ----
+        for k in &ks {
+          for is_insert in [true, false] {
+            edges += 1;
+            let key = c.key(*k);
+            let mut p2 = path.clone();
+            p2.push((is_insert, *k));
+            match c.m(&v, if is_insert { "insert" } else { "remove" }, vec![key]) {
+              Err(e) => violations.push((
+                format!("set:{}:abnormal-ending", if is_insert { "insert" } else { "remove" }),
+                format!("{} ended with {e} [{ctx}]", describe(&p2)),
+                json!({"collection": "Set", "path": describe(&p2)}),
+              )),
+              Ok(nv) => {
+                let key = decode(&nv).to_string();
+                if !seen.contains_key(&key) {
+                  seen.insert(key, states.len());
+                  let mut m2 = model.clone();
+                  if is_insert {
+                    m2.insert(*k);
+                  } else {
+                    m2.remove(k);
+                  }
+                  states.push((nv, m2, p2));
+                  queue.push_back(states.len() - 1);
+                }
+              }
+            }
+          }
+        }
+      }
+      // binary operations over all ordered pairs of a spread of states
+      let pair_n = if thorough { 160 } else { 60 };
+      let step = (states.len() / pair_n).max(1);
+      let picks: Vec<usize> = (0..states.len()).step_by(step).take(pair_n).collect();
+      let mut pair_checks = 0u64;
+      for a in &picks {
+        for b in &picks {
+          let (va, ma, pa) = &states[*a];
+          let (vb, mb, pb) = &states[*b];
+          let ctx = format!("A = {} ; B = {}", describe(pa), describe(pb));
+          let payload = json!({"collection": "Set", "A": describe(pa), "B": describe(pb)});
+          let mut set_result = |what: &str, r: Result<Value, String>, want: Vec<i32>, viol: &mut Vec<(String, String, J)>| {
+            pair_checks += 1;
+            match r {
+              Ok(x) => {
+                let xj = decode(&x);
+                let got = set_of(&xj);
+                let fi = tree_info(&xj, false);
+                if got != want || fi.max_imbalance > 2 || !fi.height_ok {
+                  viol.push((format!("set:{what}"), format!("{what} returned {got:?} (max sibling height difference {}), the model says {want:?} [{ctx}]", fi.max_imbalance), payload.clone()));
+                }
+              }
+              Err(e) => viol.push((format!("set:{what}:abnormal-ending"), format!("{what} ended with {e} [{ctx}]"), payload.clone())),
+            }
+          };
+          let r = c.m(va, "union", vec![vb.clone()]);
+          set_result("union", r, ma.union(mb).copied().collect(), &mut violations);
+          let r = c.m(va, "intersection", vec![vb.clone()]);
+          set_result("intersection", r, ma.intersection(mb).copied().collect(), &mut violations);
+          let r = c.m(va, "diff", vec![vb.clone()]);
+          set_result("diff", r, ma.difference(mb).copied().collect(), &mut violations);
+          let mut scalar = |what: &str, r: Result<Value, String>, want: J, viol: &mut Vec<(String, String, J)>| {
+            pair_checks += 1;
+            match r {
+              Ok(x) => {
+                if decode(&x) != want {
+                  viol.push((format!("set:{what}"), format!("{what} returned {}, the model says {want} [{ctx}]", decode(&x)), payload.clone()));
+                }
+              }
+              Err(e) => viol.push((format!("set:{what}:abnormal-ending"), format!("{what} ended with {e} [{ctx}]"), payload.clone())),
+            }
+          };
+          let r = c.m(va, "subset", vec![vb.clone()]);
+          scalar("subset", r, json!(ma.is_subset(mb)), &mut violations);
+          let r = c.m(va, "disjoint", vec![vb.clone()]);
+          scalar("disjoint", r, json!(ma.is_disjoint(mb)), &mut violations);
+          let f = c.h("keyEq", vec![]).unwrap();
+          let r = c.m(va, "equal", vec![vb.clone(), f]);
+          scalar("equal", r, json!(ma == mb), &mut violations);
+          let f = c.h("keyCmp", vec![]).unwrap();
+          pair_checks += 1;
+          match c.m(va, "compare", vec![vb.clone(), f]) {
+            Ok(x) => {
+              let sa: Vec<i32> = ma.iter().copied().collect();
+              let sb: Vec<i32> = mb.iter().copied().collect();
+              let want = sa.cmp(&sb) as i32;
+              let got = decode(&x).as_i64().unwrap_or(99).signum() as i32;
+              if got != want {
+                violations.push(("set:compare".into(), format!("compare has sign {got}, lexicographic order of the ascending element sequences says {want} [{ctx}]"), payload.clone()));
+              }
+            }
+            Err(e) => violations.push(("set:compare:abnormal-ending".into(), format!("compare ended with {e} [{ctx}]"), payload.clone())),
+          }
+        }
+      }
+      report.insert(
+        "set_bfs".into(),
+        json!({"keys": ks.len(), "states": states.len(), "transitions": edges, "max_depth": depth_done, "pair_checks": pair_checks,
+               "max_height_difference_between_siblings": max_imbalance, "states_with_wrong_stored_height": bad_heights,
+               "distinct_finite_sets": states.iter().map(|s| format!("{:?}", s.1)).collect::<BTreeSet<_>>().len(),
+               "fixpoint_reached": states.len() < state_cap}),
+      );
     }
     (violations, report, drivers, c.transitions)
   });
